@@ -11,6 +11,15 @@ from ztv import boot  # noqa: E402
 
 boot.bootstrap()
 
+# Harness safety net (never reached on the unchanged tree, where a layer subprocess never starts further
+# subprocesses): a broken runner whose children re-spawn themselves must not become a fork bomb.
+_depth = int(os.environ.get('ZTV_DEPTH', '0') or 0) + 1
+os.environ['ZTV_DEPTH'] = str(_depth)
+if _depth > 3:
+    sys.stderr.write('ztv: runner processes nested %d deep, giving up\n' % _depth)
+    sys.stderr.flush()
+    os._exit(97)
+
 if __name__ == '__main__':
     import zope.testrunner
     zope.testrunner.run()
